@@ -383,6 +383,18 @@ class Guard:
             return self.args[0]
         return Guard("not", self)
 
+    def astuple(self):
+        """Structural form usable as an atom argument (E leaves stay E, so let atoms inside can be unfolded)."""
+        def conv(a):
+            if isinstance(a, Guard):
+                return a.astuple()
+            if isinstance(a, (tuple, list)):
+                return tuple(conv(x) for x in a)
+            if isinstance(a, (E, str, int, bool)) or a is None:
+                return a
+            return keyof(a)
+        return ("G", self.kind) + tuple(conv(a) for a in self.args)
+
 
 class Mask:
     """Boolean mask over axis 0 of an array, one condition per element."""
